@@ -11,8 +11,11 @@
   This is the schedule the harness forces through the verifhook points.
 
   Bugs are kept: CacheLRU.Push never records the key (every access pushes a duplicate), CacheLRU.Less pops the
-  most recent stamp first, Flush leaves nil cells, volatile-random indexes the volatile slice by a draw over the
-  number of databases, allkeys-random spins on an empty database, deleteKey of an absent key still subtracts.
+  most recent stamp first, deleteKey of an absent key still subtracts.
+  Repaired upstream (the model follows): Flush empties the heaps and the volatile slice (no nil / "" cells are left),
+  volatile-random draws among the volatile keys of the database and reports "nothing to evict" when there is none,
+  allkeys-random draws among the keys of the database and reports "no keys to evict" when it is empty,
+  OBJECTFREQ / OBJECTIDLETIME on a database without caches answer "key does not exist".
 -/
 import SugarModel.Model.Dispatch
 namespace Sugar.Evict
@@ -103,7 +106,8 @@ def lfuLess (a c : LfuE) : Bool :=
 /-- lru.go :70 Less -/
 def lruLess (a c : LruE) : Bool := decide (a.time > c.time)
 
-/-- `keys map[string]bool` + `entries []*Entry` (a `none` cell is a nil pointer left by Flush) -/
+/-- `keys map[string]bool` + `entries []*Entry` (a `none` cell is a nil pointer; no operation of the repaired code
+    creates one — the cell type is kept so that dumps of the real heaps are representable whatever they hold) -/
 structure Cache (E : Type) where
   keys : List Bytes := []
   cells : List (Option E) := []
@@ -119,8 +123,8 @@ def wrap {E : Type} (es : List E) : List (Option E) := es.map some
 
 def addKey (ks : List Bytes) (k : Bytes) : List Bytes := if ks.contains k then ks else ks ++ [k]
 
-/-- Flush: `clear(cache.keys); clear(cache.entries)` — the slice keeps its length, every cell becomes nil -/
-def Cache.flush {E : Type} (c : Cache E) : Cache E := ⟨[], c.cells.map fun _ => none⟩
+/-- Flush: `clear(cache.keys); cache.entries = make([]*Entry, 0)` — both empty (repaired upstream) -/
+def Cache.flush {E : Type} (_c : Cache E) : Cache E := ⟨[], []⟩
 
 def Cache.len {E : Type} (c : Cache E) : Nat := c.cells.length
 
@@ -319,12 +323,12 @@ def victims (env : Env) (s : State) (phase : Nat) (db : Nat) : List Bytes :=
     ((!keep.contains k) != env.flip.contains k) && !(env.hold.contains k && phase < env.holdUntil)
   vs.mergeSort fun a c => costOf s db a ≤ costOf s db c
 
-/-- allkeys-random :528. One round removes the idx-th key of the database in map order (any key), or nothing when
-    the database holds no key at that position; with no key at all the loop never ends. -/
+/-- allkeys-random :556. `if len(store[database]) == 0 { return "no keys to evict" }`; one round removes the idx-th key
+    of the database in map order, idx drawn over the number of its keys (any key). -/
 def adjustAllRandom (cfg : Cfg) (env : Env) (db : Nat) : Nat → EState → Except Halt (Bool × EState)
   | 0, _ => .error (.hang "allkeys-random loop")
   | fuel + 1, es =>
-    if (es.s.db db).store.isEmpty then .error (.hang "allkeys-random on an empty database") else
+    if (es.s.db db).store.isEmpty then .ok (false, es) else
     match victims env es.s es.phase db with
     | [] => .error (.stuck "allkeys-random must remove a key the observed run kept")
     | k :: _ =>
@@ -332,22 +336,25 @@ def adjustAllRandom (cfg : Cfg) (env : Env) (db : Nat) : Nat → EState → Exce
       | .error h => .error h
       | .ok es' => if below cfg es' then .ok (true, es') else adjustAllRandom cfg env db fuel es'
 
-/-- volatile-random :568: `idx := rand.Intn(len(keysWithExpiry.keys))` (number of databases),
-    `key := keysWithExpiry.keys[database][idx]` (index panic when the slice is shorter) -/
+/-- the cells of the volatile slice of `db` that the observed run did not keep (or that name no stored key), cheapest first -/
+def volVictims (env : Env) (s : State) (phase : Nat) (db : Nat) : List Bytes :=
+  let keep := (env.keep.get db).getD []
+  let vs := (s.db db).vol.filter fun k =>
+    ((!keep.contains k || (s.lookup db k).isNone) != env.flip.contains k) && !(env.hold.contains k && phase < env.holdUntil)
+  vs.mergeSort fun a c => costOf s db a ≤ costOf s db c
+
+/-- volatile-random :596: `if len(keysWithExpiry.keys[database]) == 0 { return "no volatile keys to evict" }`,
+    `idx := rand.Intn(len(keysWithExpiry.keys[database]))`, `key := keysWithExpiry.keys[database][idx]` (any cell) -/
 def adjustVolRandom (cfg : Cfg) (env : Env) (db : Nat) : Nat → EState → Except Halt (Bool × EState)
   | 0, _ => .error (.hang "volatile-random loop")
   | fuel + 1, es =>
-    let vol := (es.s.db db).vol
-    let ndb := es.s.dbs.length
-    if vol.isEmpty then .error (.panic "index out of range in volatile-random") else
-    if vol.length < ndb && env.died then .error (.panic "index out of range in volatile-random (draw)") else
-    -- candidates: the first min(len, ndb) cells; prefer one the observed run lost
-    let cands := vol.take ndb
-    let keep := (env.keep.get db).getD []
-    let k := (cands.find? fun k => (!keep.contains k || (es.s.lookup db k).isNone) != env.flip.contains k).getD (cands.headD [])
-    match deleteKeyE cfg es db k with
-    | .error h => .error h
-    | .ok es' => if below cfg es' then .ok (true, es') else adjustVolRandom cfg env db fuel es'
+    if (es.s.db db).vol.isEmpty then .ok (false, es) else
+    match volVictims env es.s es.phase db with
+    | [] => .error (.stuck "volatile-random must remove a key the observed run kept")
+    | k :: _ =>
+      match deleteKeyE cfg es db k with
+      | .error h => .error h
+      | .ok es' => if below cfg es' then .ok (true, es') else adjustVolRandom cfg env db fuel es'
 
 /-- adjustMemoryUsage :436 for one database. `true` = nil, `false` = an error was returned. -/
 def adjustMemoryUsage (cfg : Cfg) (env : Env) (db : Nat) (es : EState) : Except Halt (Bool × EState) :=
@@ -523,7 +530,8 @@ def handleObjFreqE (c : Ctx) (es : EState) (cmd : List Bytes) : Except Halt (ERe
   match cmd with
   | [_, k] =>
     match es.lfu.get c.db with
-    | none => .error (.panic "nil LFU cache in getObjectFreq")
+    -- a database that was never written to has no cache: none of its keys exist (repaired upstream)
+    | none => .ok (.res (.err (b "Key: " ++ k ++ b " does not exist.")), es)
     | some ch =>
       if ch.cells.isEmpty then .ok (.res (.err (b "Key: " ++ k ++ b " does not exist.")), es) else
       match unwrapCells ch.cells with
@@ -539,7 +547,7 @@ def handleObjIdleE (c : Ctx) (es : EState) (cmd : List Bytes) : Except Halt (ERe
   match cmd with
   | [_, k] =>
     match es.lru.get c.db with
-    | none => .error (.panic "nil LRU cache in getObjectIdleTime")
+    | none => .ok (.res (.err (b "Error: key " ++ k ++ b " does not exist.")), es)
     | some ch =>
       if ch.cells.isEmpty then .ok (.res (.err (b "Error: key " ++ k ++ b " does not exist.")), es) else
       match unwrapCells ch.cells with
